@@ -28,6 +28,7 @@ TREES = {
     'skips': ['a.log', 'b.log', 'c.txt', 'sub/d.log', 'sub/e.txt'],
     'excluded': ['a.txt', 'skipme/b.txt', 'keep/c.txt', 'keep/d.log'],
     'raising': ['a.txt', 'boom.txt', 'c.txt', 'sub/boom.txt', 'sub/e.txt'],
+    'raisedirs': ['a.txt', 'boomd1/x.txt', 'boomd2/y.txt', 'boomd3/z.txt', 'ok/w.txt'],   # directory validation raises
     'empty': [],
 }
 HOOKS_FILE = ('on_validate_file', 'on_match', 'on_skip', 'on_error')
@@ -68,6 +69,8 @@ class Rec(WM.WcMatch):
 
     def on_validate_directory(self, base, name):
         self._ev('on_validate_directory', base, name)
+        if name.startswith('boomd'):
+            raise ValueError('boom dir')
         return name != 'skipme'
 
     def on_validate_file(self, base, name):
@@ -114,7 +117,7 @@ def check_abort_points(tname, root, res):
         files = [r for h, r in T0 if h == 'on_validate_file' or (h in ('on_skip', 'on_match'))]
         routed = [r for h, r in T0 if h in ('on_match', 'on_skip')]
         res.n['evaluations'] += 1
-        visited = sorted(p for p in TREES[tname] if not p.startswith('skipme/'))
+        visited = sorted(p for p in TREES[tname] if not p.startswith('skipme/') and not p.startswith('boomd'))
         n_skip = sum(1 for h, r in T0 if h == 'on_skip')
         if sorted(routed) != visited or w0.get_skipped() != n_skip:
             res.add_violation(ID, run.viol('routing', {'tree': tname, 'skip_values': skip_values},
@@ -148,6 +151,10 @@ def check_kill_run(w, ys, T0, Y0, k, inp, res):
     if hook in HOOKS_FILE:
         bad = [e for e in after if e[1] != f or e[0] not in ('on_match', 'on_skip', 'on_error')]
         allowed_extra = {('M', f), ('S', f), ('E', f)}
+    elif hook == 'on_validate_directory':
+        # the directory in flight: if its validation raises after the kill, its on_error record still follows
+        bad = [e for e in after if e != ('on_error', f)]
+        allowed_extra = {('E', f)}
     else:
         bad = list(after)
         allowed_extra = set()
